@@ -35,7 +35,15 @@ Proj(d, f, lens) == { <<n.k, n.i, n.r, n.z,
                         [j \in 1..Len(f[d[n]].ids) |->
                             LET id == f[d[n]].ids[j] IN <<IF Anon(lens[id]) THEN 0 ELSE id, lens[id]>>]>> : n \in DOMAIN d }
 Observed(F) == { <<F[j].k, F[j].i, F[j].r, F[j].z, F[j].recs>> : j \in 1..Len(F) }
-Match == (~E.o) \/ Proj(dir', files', logged') = Observed(E.obs.files)
+RecsOfIno(f, ino, lens) == [j \in 1..Len(f[ino].ids) |->
+                               LET id == f[ino].ids[j] IN <<IF Anon(lens[id]) THEN 0 ELSE id, lens[id]>>]
+\* the current family; the files the environment moved away (C18), in order; the families before each reset_flw
+Match == \/ ~E.o
+         \/ /\ Proj(dir', files', logged') = Observed(E.obs.files)
+            /\ Len(moved') = Len(E.obs.moved)
+            /\ \A j \in 1..Len(moved') : RecsOfIno(files', moved'[j], logged') = E.obs.moved[j].recs
+            /\ Len(olddirs') = Len(E.obs.prev)
+            /\ \A j \in 1..Len(olddirs') : Proj(olddirs'[j], files', logged') = Observed(E.obs.prev[j])
 
 BeginReset == /\ dir' = <<>> /\ files' = <<>> /\ w' = NoWriter /\ clk' = E.t /\ cfg' = ModelCfg(E.norm)
          /\ logged' = <<>> /\ wt' = <<>> /\ runs' = 0 /\ trigs' = 0 /\ advs' = 0 /\ gone' = {} /\ okgone' = {}
@@ -64,7 +72,11 @@ TraceNext ==
                  [] e.ev = "Flush" /\ Ok(e) -> (Flush \/ (~ENABLED Flush /\ Stutter)) /\ Match
                  [] e.ev = "Stop" /\ Ok(e) -> Stop /\ Match
                  [] e.ev = "Adv" -> Advance(e.dt) /\ Match
-                 [] e.ev = "ExtRemove" /\ Ok(e) -> (\E n \in DOMAIN dir : ExtRemove(n) /\ Match)
+                 [] e.ev = "ExtRemove" /\ Ok(e) -> \/ (\E n \in DOMAIN dir : ExtRemove(n) /\ Match)
+                                                   \/ (ExtRemoveCur /\ Match)
+                 [] e.ev = "ExtRename" /\ Ok(e) -> ExtRenameCur /\ Match
+                 [] e.ev = "Reopen" /\ Ok(e) -> Reopen /\ Match
+                 [] e.ev = "Reset" /\ Ok(e) -> Reset(ModelCfg(e.norm)) /\ Match
                  [] OTHER -> Stutter /\ Match
     /\ IF l = Len(Rec) THEN PrintT(<<"CONSUMED", l>>) ELSE TRUE
 
